@@ -52,6 +52,8 @@ func c12Makers(r *rng.R, n int) []stepperMaker {
 		func(o int, f bool) stepperMaker {
 			return mkStepper(func() *kinds.Kind[string] { return kinds.CollString(kinds.CollationConfig("und")) }, o, f)
 		},
+		func(o int, f bool) stepperMaker { return mkStepper(kinds.CollStringDefault, o, f) },
+		func(o int, f bool) stepperMaker { return mkStepper(kinds.CollRunes, o, f) },
 		func(o int, f bool) stepperMaker {
 			return mkStepper(func() *kinds.Kind[kinds.Tuple] {
 				return kinds.CompoundKind(kinds.Schema{Fields: []kinds.FieldType{kinds.FU16, kinds.FI32}, Str: true}, true)
